@@ -189,6 +189,34 @@ Example C01_post_refuted_rbind_copy :
   /\ C01.step_spec ex_cfg w_r v_r = false.
 Proof. vm_compute. repeat split; reflexivity. Qed.
 
+(* ------------------------------------------------------------------ (d) mount_post refuted without pre_right *)
+(* a pre-existing import that layercake accepts (MountSourceIsExpected compares device and root
+   against the table as it is NOW) but whose source path showed another file system WHEN the
+   bind was made: a tmpfs on /old, bind /old -> <build>/mnt, later bind /old -> /s; the layer
+   says `import bind /s /mnt`.  One mount on the mountpoint, no call, result ROk; the
+   specification's shows_source (covering mount of the source at attachment time) says no *)
+Definition cfg_s : bytes := bs "import bind /s /mnt" ++ nlb.
+Definition fs_s : fsT := dirs ["/old"; "/s"; "/b/layers/base0/build/mnt"]%string.
+Definition w_s0 : wobs := world fs_s cfg_s (bs "base base0" ++ nlb) ks0.
+Definition ks_s1 : kstate := ks_of (kmount (wo_fs w_s0) ks0 (bs "none") (bs "/old") (bs "tmpfs") 0 []).
+Definition ks_s2 : kstate :=
+  ks_of (kmount (wo_fs w_s0) ks_s1 (bs "/old") (bs "/b/layers/base0/build/mnt") (bs "bind") MS_BIND []).
+Definition ks_s3 : kstate := ks_of (kmount (wo_fs w_s0) ks_s2 (bs "/old") (bs "/s") (bs "bind") MS_BIND []).
+Definition w_s : wobs := world fs_s cfg_s (bs "base base0" ++ nlb) ks_s3.
+Definition v_s : sview := mview ex_cfg w_s ex_env (bs "base0") [].
+Example C01_post_refuted_later_source :
+  plain_env ex_env = true
+  /\ wf_table (ks_tab (wo_ks w_s)) = true
+  /\ nostack0 ex_cfg (chain ex_cfg (wo_fs w_s) (bs "base0")) (ks_tab (wo_ks w_s)) = true
+  /\ pre_right ex_cfg (wo_fs w_s) (chain ex_cfg (wo_fs w_s) (bs "base0")) (ks_tab (wo_ks w_s)) = false
+  /\ v_res v_s = ROk
+  /\ syscalls (v_log v_s) = []
+  /\ count_at (ks_tab (wo_ks (v_after v_s))) (bs "/b/layers/base0/build/mnt") = 1%nat
+  /\ C01.mount_post ex_cfg (wo_fs w_s) (layers_on_disk ex_cfg (wo_fs w_s))
+       (chain ex_cfg (wo_fs w_s) (bs "base0")) (ks_tab (wo_ks (v_after v_s))) = false
+  /\ C01.step_spec ex_cfg w_s v_s = false.
+Proof. vm_compute. repeat split; reflexivity. Qed.
+
 (* ------------------------------------------------------------------ idempotence on the good world *)
 Example C01_idempotent_example :
   syscalls (v_log (mview ex_cfg (v_after v_good) ex_env d1 [])) = [].
